@@ -203,6 +203,8 @@ class Prop(SeqProp):
         # many elements: the stream is lazy, only its head is taken (sizes around 255 / 256 / 257 and beyond)
         for m in ([255, 256, 257, 300, 1000] if tier == "quick" else [255, 256, 257, 258, 300, 511, 512, 513, 1000, 5000]):
             out.append({"kind": "many-elements", "n": m, "seed": rng.randrange(1 << 30)})
+        # combinations with hundreds of members early in the stream: key = number of elements skipped before the last member
+        out.append({"kind": "long-combinations", "n": 600 if tier == "quick" else 1500})
         return out
 
     def run_extra(self, desc):
@@ -217,6 +219,21 @@ class Prop(SeqProp):
             def __lt__(self, other):
                 return self.v < other.v
 
+        if desc["kind"] == "long-combinations":
+            n = desc["n"]
+            skipped = lambda c: c[-1] + 1 - len(c)
+            try:
+                head = core.call_with_alarm(lambda: list(itertools.islice(
+                    g.sorted_combinations(range(n), skipped, yield_key=True), n)), 60.0)
+            except core.Timeout:
+                return f"the first {n} combinations of range({n}) under the 'skipped elements' key were not produced within 60 s"
+            except Exception as e:  # noqa
+                return f"sorted_combinations(range({n}), key = elements skipped before the last member) raised {err_name(e)}"
+            # the combinations with key 0 are exactly the prefixes (0,), (0, 1), ...: n of them, they come first
+            if sorted((len(c), k) for c, k in head) != [(j, 0) for j in range(1, n + 1)] or \
+                    any(list(c) != list(range(len(c))) for c, _ in head):
+                return f"range({n}) under the 'skipped elements' key: the first {n} combinations are not the {n} prefixes with key 0"
+            return None
         if desc["kind"] == "many-elements":
             r = random.Random(desc["seed"])
             n = desc["n"]
